@@ -49,6 +49,13 @@ def run(p: Program, rep: Report, tier: str) -> None:
                 fed += list(e.b or ())
         has_m = any(contains(x, ("attr", SR, "st_mtime")) or contains(x, ("attr", SR, "st_mtime_ns")) for x in fed)
         has_s = any(contains(x, ("attr", SR, "st_size")) for x in fed)
+        # getattr(stat_result, <name taken from a literal table of field names>): the table's names are the attributes read
+        for x in fed:
+            for t in subterms(x):
+                if t[0] == "call" and t[1] == ("builtin", "getattr") and len(t[2]) >= 2 and t[2][0] == SR:
+                    names_ = {c_[1] for c_ in subterms(t[2][1]) if c_[0] == "const" and isinstance(c_[1], str)}
+                    has_m = has_m or bool(names_ & {"st_mtime", "st_mtime_ns"})
+                    has_s = has_s or "st_size" in names_
         # ... and depends on them LOSSLESSLY: a float mtime rendered with a precision-limiting format / truncated to int no
         # longer distinguishes modifications that str()/repr() (round-trip exact) does
         lossy = None
@@ -303,6 +310,9 @@ def run(p: Program, rep: Report, tier: str) -> None:
             if oka and okb:
                 found_cmp = True
                 rep.ok("R14.2", "unmodified <=> int(last_modified) <= int(parsedate(If-Modified-Since).timestamp()) (one-second granularity on both operands)")
+            elif oka and b[0] == "call" and b[1] == ("builtin", "int") and any(t[0] == "call" and t[1][0] in ("func", "closure") and any(contains(x_, ("param", "if_modified_since")) for x_ in t[2]) for t in subterms(b)):
+                found_cmp = True
+                rep.undecide("R14.2", f"the header date is parsed by a repository helper ({show(b)[:60]}): that it is parsedate_to_datetime(...).timestamp() is not followed")
             else:
                 rep.violation("R14.2", construct(ims, text=f"return {show(v)[:90]}"), where(ims), "the comparison does not truncate both operands to whole seconds / does not use the parsed header date")
         elif v[0] == "cmp":
@@ -353,6 +363,9 @@ def run(p: Program, rep: Report, tier: str) -> None:
                 stages.append(src[2])
                 src = src[3]
             split_recv = src[1][1] if (src[0] == "call" and src[1][0] == "attr" and src[1][2] == "split") else None
+            if split_recv is None and src[0] in ("obj", "gen", "call") and not (src[0] == "call" and src[1][0] == "attr" and src[1][2] in ("split", "rsplit", "partition", "splitlines")):
+                rep.undecide("R14.4", f"the members come out of {show(src)[:60]} (an iterator object / helper): how the header is split is not followed")
+                continue
             if split_recv is None or src[2] != (("const", ","),):
                 rep.violation("R14.4", construct(inm, text=f"members of {show(src)[:60]}"), where(inm), "the header is not split on ',' into members")
                 continue
